@@ -14,7 +14,7 @@ def failing(f, ctr):
     g = F()
     return g
 
-TARGETS = ['LAMMPS', 'DLPOLY', 'GULP', 'excel', 'setfl', 'setfl_fs', 'DL_POLY_EAM', 'DL_POLY_EAM_fs', 'eam_adp', 'excel_eam']
+TARGETS = ['LAMMPS', 'DLPOLY', 'GULP', 'excel', 'setfl', 'setfl_fs', 'DL_POLY_EAM', 'DL_POLY_EAM_fs', 'eam_adp', 'excel_eam', 'excel_eam_fs']
 
 def build(case, ctr):
     t = case['target']; m = case['model']; fs = t.endswith('_fs')
@@ -35,6 +35,7 @@ def build(case, ctr):
     if t == 'DL_POLY_EAM': return ETm.TABEAM_EAMTabulation(*a)
     if t == 'DL_POLY_EAM_fs': return ETm.TABEAM_FinnisSinclair_EAMTabulation(*a)
     if t == 'excel_eam': return ETm.Excel_EAMTabulation(*a)
+    if t == 'excel_eam_fs': return ETm.Excel_FinnisSinclair_EAMTabulation(*a)
     if t == 'eam_adp':
         dips = [Potential(p.speciesA, p.speciesB, failing(lambda r: 1.0 + r, ctr)) for p in pots]
         quads = [Potential(p.speciesA, p.speciesB, failing(lambda r: 2.0 - r, ctr)) for p in pots]
